@@ -1,4 +1,6 @@
 SPECIFICATION Spec
 CONSTANTS
   MaxC = 3
+  MaxLong = 14
+  MaxJobs = 7
 CHECK_DEADLOCK FALSE
